@@ -1,5 +1,6 @@
 import Gk.DrvRepo
 import Gk.DrvHook
+import Gk.DrvMut
 open Gk
 
 /-- `gkdriver <family>`: reads trace lines on stdin, prints `L<n> DIFF …` / `L<n> MON …` lines and a
@@ -34,9 +35,25 @@ partial def loopHook (h : IO.FS.Stream) (s : DrvHook.S) (n hist nt bad : Nat) : 
     for o in outs do IO.println s!"L{n + 1} {o}"
     loopHook h s' (n + 1) hist nt (bad + outs.length)
 
+partial def loopMut (h : IO.FS.Stream) (s : DrvMut.S) (n hist nt bad : Nat) : IO Unit := do
+  let line ← h.getLine
+  if line.isEmpty then
+    IO.println s!"SUMMARY family=mut lines={n} histories={hist} nontrivial={nt} ops={s.ops} decode_errors={s.decodeErrs} panics={s.panics} flagged={bad}"
+    return
+  let toks := Proto.tokens line
+  match toks with
+  | [] => loopMut h s (n + 1) hist nt bad
+  | ["end"] => loopMut h s (n + 1) (hist + 1) (nt + (if s.nontrivial then 1 else 0)) bad
+  | _ =>
+    let (req, resp) := Proto.splitArrow toks
+    let (s', outs) := DrvMut.stepLine s req resp
+    for o in outs do IO.println s!"L{n + 1} {o}"
+    loopMut h s' (n + 1) hist nt (bad + outs.length)
+
 def main (args : List String) : IO UInt32 := do
   let stdin ← IO.getStdin
   match args with
   | ["repo"] => loopRepo stdin {} 0 0 0 0; return 0
   | ["hook"] => loopHook stdin {} 0 0 0 0; return 0
+  | ["mut"] => loopMut stdin {} 0 0 0 0; return 0
   | _ => IO.eprintln "usage: gkdriver repo"; return 2
